@@ -48,7 +48,14 @@ CLAIMED = {
         "text": "Decides the format discipline that makes the log line-delimited and append-only: each record is written by serde_json's compact serializer (formatter type resolved by rustc) followed on every path by exactly one newline with errors propagated; read() parses lines().next() with from_str::<Record> and pushes in order; save_stats opens with append(true) and never truncates; import_stats_file appends; every type under Record derives both serde traits without asymmetric attributes; an applied lint is counted once.",
         "note": "Trusted: serde_json's compact formatter escapes control characters. Not decided: value round trip of each field (e.g. non-finite floats serialise to null).",
     },
+    "C07": {
+        "level": "other",
+        "ref": "DESIGN.md section 3, C07",
+        "technique": "dominance / must-pass-through ordering of the add-to-dictionary command arms on pre-transform coroutine MIR with same-value provenance (dictionary, word, url); crash-consistency rule on save_dict (no truncating open of the destination; temp file, flush, rename); writer/reader delimiter agreement",
+        "text": "Decides the pipeline clause (load -> append the first argument -> save that same dictionary -> refresh -> publish for the same url, each awaited, nothing skippable once the word is appended; file-dictionary load and save resolve the path through the same function of the same url) and the crash clause as a structural fact: save_dict never opens the destination for truncation, it writes a sibling temp file, flushes/syncs and renames it over the destination, so every crash point leaves either the old or the new complete file. The in-place truncation this rule found was repaired (fix F7).",
+        "note": "Trusted: rename(2) is atomic on one file system. Not decided: words containing line breaks or differing only in case (values), concurrent writers, the JS import path (decided under C16).",
+    },
 }
 
 _TODO = "static rules for this property are specified in DESIGN.md section 3 but not yet implemented and self-tested; unclaimed until they are"
-NOT_APPLICABLE = {k: _TODO for k in ["C01", "C02", "C03", "C04", "C05", "C06", "C07", "C08", "C09", "C12", "C17", "C18"]}
+NOT_APPLICABLE = {k: _TODO for k in ["C01", "C02", "C03", "C04", "C05", "C06", "C08", "C09", "C12", "C17", "C18"]}
